@@ -102,7 +102,7 @@ var $newType = (size, kind, string, named, pkg, exported, constructor) => {
 
         case $kindInt64:
             typ = function (high, low) {
-                this.$high = (high + Math.floor(Math.ceil(low) / 4294967296)) >> 0;
+                this.$high = (high + Math.floor(Math.trunc(low) / 4294967296)) >> 0;
                 this.$low = low >>> 0;
                 this.$val = this;
             };
@@ -111,7 +111,7 @@ var $newType = (size, kind, string, named, pkg, exported, constructor) => {
 
         case $kindUint64:
             typ = function (high, low) {
-                this.$high = (high + Math.floor(Math.ceil(low) / 4294967296)) >>> 0;
+                this.$high = (high + Math.floor(Math.trunc(low) / 4294967296)) >>> 0;
                 this.$low = low >>> 0;
                 this.$val = this;
             };
